@@ -1,8 +1,8 @@
 SPECIFICATION Spec
 CONSTANTS
-  Procs <- P3
-  Dev <- DevIdeal
-  Scenarios <- ScnAllP
+  Procs <- P2
+  Dev <- DevKeepsShm
+  Scenarios <- ScnClosedBak
 INVARIANT NoFailure
 INVARIANT SerialResults
 INVARIANT StoreUnchanged
@@ -10,6 +10,5 @@ INVARIANT NoDeadlock
 INVARIANT WalAtWork
 INVARIANT TxnLockAgree
 INVARIANT NoStaleSideFile
-INVARIANT SidePathsMatch
 INVARIANT NoIdleTransaction
 CHECK_DEADLOCK FALSE
